@@ -34,6 +34,8 @@ func loadOrderTable(verifDir string) (*orderTable, error) {
 }
 
 func checkC13(c *Ctx, r *Report) {
+	defer checkContainerFields(c, r, "C13.c")
+	defer checkProcessWideState(c, r, "C13.c")
 	w := c.W
 	r.NotDecided = append(r.NotDecided,
 		"nondeterminism inside go/packages, kin-openapi, libopenapi, raymond",
